@@ -283,6 +283,91 @@ Proof.
 Qed.
 
 (* ---------------------------------------------------------------------------------------- *)
+(* copyNamespaceAttributes: the nearest declaration of a prefix (or of the default namespace) wins,
+   and each prefix is offered once *)
+
+Lemma copy_ns_level_dedupe : forall l visited,
+  copy_ns_level l visited = (dedupe l visited, rev (map fst (dedupe l visited)) ++ visited).
+Proof.
+  induction l as [|[p u] r IH]; intros visited; simpl; [reflexivity|].
+  destruct (mem_pfx p visited); [apply IH|].
+  rewrite IH. simpl. rewrite <- app_assoc. reflexivity.
+Qed.
+
+Lemma mem_pfx_app : forall p a b, mem_pfx p (a ++ b) = mem_pfx p a || mem_pfx p b.
+Proof. intros. unfold mem_pfx. apply existsb_app. Qed.
+
+Lemma mem_pfx_rev : forall p a, mem_pfx p (rev a) = mem_pfx p a.
+Proof.
+  intros p a. induction a as [|x r IH]; simpl; auto.
+  rewrite mem_pfx_app, IH. simpl. rewrite orb_false_r. apply orb_comm.
+Qed.
+
+Lemma dedupe_lookup : forall p l seen, mem_pfx p seen = false ->
+  ctx_lookup p (dedupe l seen) = ctx_lookup p l.
+Proof.
+  induction l as [|[p' u'] r IH]; intros seen Hs; simpl; [reflexivity|].
+  destruct (mem_pfx p' seen) eqn:E.
+  - assert (Hne : pfx_eqb p p' = false).
+    { destruct (pfx_eqb p p') eqn:Q; auto. apply pfx_eqb_eq in Q. subst. congruence. }
+    rewrite Hne. apply IH. assumption.
+  - simpl. destruct (pfx_eqb p p') eqn:Q; [reflexivity|].
+    apply IH. simpl. rewrite Q. assumption.
+Qed.
+
+Lemma dedupe_lookup_seen : forall p l seen, mem_pfx p seen = true -> ctx_lookup p (dedupe l seen) = None.
+Proof.
+  induction l as [|[p' u'] r IH]; intros seen Hs; simpl; [reflexivity|].
+  destruct (mem_pfx p' seen) eqn:E; [auto|].
+  simpl. destruct (pfx_eqb p p') eqn:Q.
+  - apply pfx_eqb_eq in Q. subst. congruence.
+  - apply IH. simpl. rewrite Q. assumption.
+Qed.
+
+Lemma ctx_lookup_app : forall p a b,
+  ctx_lookup p (a ++ b) = match ctx_lookup p a with Some u => Some u | None => ctx_lookup p b end.
+Proof.
+  induction a as [|[p' u'] r IH]; intros b; simpl; [reflexivity|].
+  destruct (pfx_eqb p p'); auto.
+Qed.
+
+Lemma ctx_lookup_mem : forall p l, ctx_lookup p l = None -> mem_pfx p (map fst l) = false.
+Proof.
+  induction l as [|[p' u'] r IH]; simpl; intro H; [reflexivity|].
+  destruct (pfx_eqb p p'); [discriminate|]. auto.
+Qed.
+
+Lemma ctx_lookup_mem_some : forall p l u, ctx_lookup p l = Some u -> mem_pfx p (map fst l) = true.
+Proof.
+  induction l as [|[p' u'] r IH]; simpl; intros u H; [discriminate|].
+  destruct (pfx_eqb p p'); [reflexivity|]. eauto.
+Qed.
+
+Lemma copy_ns_walk_lookup : forall p levels visited, mem_pfx p visited = false ->
+  ctx_lookup p (copy_ns_walk levels visited) = ctx_lookup p (concat levels).
+Proof.
+  induction levels as [|l r IH]; intros visited Hv; simpl; [reflexivity|].
+  rewrite copy_ns_level_dedupe. rewrite !ctx_lookup_app.
+  rewrite (dedupe_lookup p l visited Hv).
+  destruct (ctx_lookup p l) as [u|] eqn:E; [reflexivity|].
+  apply IH. rewrite mem_pfx_app, mem_pfx_rev, Hv, orb_false_r.
+  apply ctx_lookup_mem. rewrite dedupe_lookup; assumption.
+Qed.
+
+Lemma copy_ns_nearest_wins_l : forall p levels,
+  ctx_lookup p (copy_ns_offered levels) = ctx_lookup p (concat levels).
+Proof. intros. apply copy_ns_walk_lookup. reflexivity. Qed.
+
+Lemma copy_ns_walk_seen : forall p levels visited, mem_pfx p visited = true ->
+  ctx_lookup p (copy_ns_walk levels visited) = None.
+Proof.
+  induction levels as [|l r IH]; intros visited Hv; simpl; [reflexivity|].
+  rewrite copy_ns_level_dedupe, ctx_lookup_app, (dedupe_lookup_seen p l visited Hv).
+  apply IH. rewrite mem_pfx_app, Hv. apply orb_true_r.
+Qed.
+
+
+(* ---------------------------------------------------------------------------------------- *)
 (* getPrefixForNamespace only answers with a prefix that is still bound to the URI (KN1 repair) *)
 
 Lemma prefix_for_ns_sound : forall k u p, prefix_for_ns k u = Some p -> ns_for_prefix k p = Some u.
